@@ -246,7 +246,7 @@ func runShard(ctx context.Context, bin, id, tier string, cfg propCfg, tc tierCfg
 var (
 	reFatal   = regexp.MustCompile(`(?m)^fatal error: (.*)$`)
 	reRuntime = regexp.MustCompile(`(?m)^runtime: (goroutine stack exceeds.*)$`)
-	reFrame   = regexp.MustCompile(`(?m)^github\.com/go-critic/go-critic/([^\s(]+(?:\([^)]*\))?[^\s(]*)\(`)
+	reFrame   = regexp.MustCompile(`(?m)^\s*github\.com/go-critic/go-critic/([^\s(]+(?:\([^)]*\))?[^\s(]*)\(`)
 	reRace    = regexp.MustCompile(`WARNING: DATA RACE`)
 )
 
